@@ -26,6 +26,27 @@ CHECKS = {
        "properly paired non-nested OF[ OF], complete metadata) and the real ovniemu -l must accept the trace.",
   note="Conformance as documented in doc/user/runtime/index.md; OB. events with arbitrary payload/jumbo data stand "
        "for user events. Held on the programs generated, not all programs."),
+ "C04": dict(
+  cat="exploration", ref="DESIGN.md section 3, C04",
+  technique="runtime monitoring: bounded-exhaustive legal-prefix closure + random histories through the real ovniemu, six-transition reference machine as oracle, thread.prv step functions compared per event",
+  text="Every legal prefix (per the six-transition machine of the statement) up to a fixed length over the OH* alphabet, "
+       "on one thread, on the virtual CPU and on two threads (own CPUs, shared physical CPU, shared virtual CPU), is "
+       "extended by every possible next event and run through the real emulator: legal extensions completed to Dead "
+       "must be accepted with thread.prv types 4/2/6 equal to the machine after every event (and rejected bare if a "
+       "thread is not dead); illegal extensions must be rejected under every candidate completion. Random histories to "
+       "length 40 on 1-3 threads on top. Exhaustive inside the stated bound only.",
+  note="Oracle is lib/refemu.py (written from the statement and doc/user/emulation/ovni.md); OHx after OHe is outside "
+       "the space as the property says; observation is exit status, final INFO line and the .prv/.pcf files."),
+ "C05": dict(
+  cat="exploration", ref="DESIGN.md section 3, C05",
+  technique="runtime monitoring: legal-prefix closure + random thread/affinity histories through the real ovniemu, reference CPU model as oracle, cpu.prv and thread.prv step functions compared per event",
+  text="Histories over OHx(cpu)/OHp/OHr/OHc/OHw/OHe/OAs(cpu)/OAr(cpu,tid) on 2-5 threads, 1-2 looms, 1-3 physical CPUs "
+       "plus the virtual CPU (bounded closure on two small systems, random to length 60): the emulator must accept "
+       "exactly when the reference model sees no illegal transition and never two running threads on a physical CPU "
+       "(virtual CPU oversubscription must be accepted); cpu.prv types 1/2/3 and thread.prv 4/2/6 must equal the model "
+       "after every event; cpu.row names must be the model's CPU order.",
+  note="Oracle lib/refemu.py; remote affinity events naming the CPU the target already occupies are not generated "
+       "(not a change; behaviour unspecified by the property, see DESIGN.md)."),
 }
 
 NOT_YET = "check not implemented yet in this revision (work in progress, see DESIGN.md section 3)"
